@@ -2,6 +2,8 @@
 import re
 
 T = "RsslVerif.Thm.C02."
+TS = "RsslVerif.Thm.C02Sem."
+SEM_THEOREMS = ["msl_exporter_shape_as_modelled", "msl_op_table_is_identity", "msl_literal_arms_same_as_hlsl", "msl_genLiteral_eq"]
 
 POSITIONS = ["xs", "vi", "ai", "bl", "ic", "ib", "ec", "et", "ee", "fi", "fd", "fc", "fa", "fb", "wc", "wb", "db", "dc",
              "sx", "sb", "rt", "tc", "tt", "tf", "sq", "sw", "ct", "si", "ia", "cs", "op", "wr"]
@@ -11,6 +13,9 @@ CLASSES = ["S@plain", "G@array", "S@struct", "E@cbuffer", "Eo@texture", "E@texar
 def nontrivial(req, obs):
     # at least two calls between generated functions and one function that receives an implicit parameter
     f = req.split("\t")
+    if f[0] == "C02.gen":
+        # semantic stream: a supported function whose tree has a statement beyond a single return
+        return obs.startswith("ast ") and obs.count("(") > 12
     if f[0] != "C02.thread" or len(f) < 4:
         return obs.startswith("defs:")
     calls = len(re.findall(r"\.c\d+", f[2]))
@@ -88,8 +93,8 @@ def search(ctx):
 
 SPEC = {
     "id": "C02",
-    "gens": ["UsageTables"],
-    "lean_modules": ["RsslVerif.Thm.C02"],
+    "gens": ["UsageTables", "MslGenTables"],
+    "lean_modules": ["RsslVerif.Thm.C02", "RsslVerif.Thm.C02Sem"],
     "theorems": [T + n for n in [
         "tables_as_modelled", "all_positions_descended", "implicit_names_agree",
         "recurse_no_panic", "recurse_terminates", "measure_bounded_and_increasing", "close_is_reachability",
@@ -97,7 +102,7 @@ SPEC = {
         "requiredP_order_independent", "required_monotone", "args_align", "args_unchanged_without_implicit", "args_aligned_with_defaults",
         "threaded_exactly_partial", "calculateLocal_wf", "closeProgram_ok", "threaded_exactly_program_partial",
         "mentions_calculateLocal", "threaded_exactly",
-        "default_arguments_analysed", "global_initialisers_analysed"]],
+        "default_arguments_analysed", "global_initialisers_analysed"]] + [TS + n for n in SEM_THEOREMS],
     "harness": "c02",
     "nontrivial": nontrivial,
     "finding_key": finding_key,
